@@ -262,6 +262,11 @@ def _pareto_obls():
     out.append(O('C11.%s_against_2v1' % a, 'harness.c11_pareto', 'against_2v1', 120, 600,
                  '%s.is_pareto_optimal_against, strict and non-strict (recursive split of the points)' % a,
                  '2 points vs 1 point x 2 coordinates', env={'VERIF_PARETO': a}))
+  for a in ['fast1', 'fast2']:
+    out.append(O('C11.%s_against_4v1' % a, 'harness.c11_pareto', 'against_4v1_distinct_x', None, 1500,
+                 '%s.is_pareto_optimal_against on 4 points with distinct first coordinates (the recursion really splits)' % a,
+                 '4 points (x fixed distinct, y arbitrary) vs 1 arbitrary point, strict and non-strict',
+                 env={'VERIF_PARETO': a}))
   for a in ['naive', 'fast1', 'fast2', 'jax', 'nsga2rank']:
     out.append(O('C11.%s_3x3' % a, 'harness.c11_pareto', 'points_3x3', None, 1500, '%s, 3 coordinates' % a,
                  '3 points x 3 coordinates: 2197 order types', env={'VERIF_PARETO': a}))
